@@ -628,6 +628,8 @@ def _dcg_contract(name, params, requires, extra_ensures):
         modifies=["C01_Glyph.components", "C01_Glyph.log_drawn", "C01_Glyph.log_pens"],
         ghost_vars={"L0": (List(Ref("C01_Component")), "glyph.log_drawn"), "P0": (List(Ref("DecomposingFilterPointPen")), "glyph.log_pens"), "allp": (BOOL, "True")},
         ghost={"glyph.removeComponent(component)": ["allp = allp and (component.baseGlyph in glyphSet)"]},
+        # the pen log right after the draw (the invariant `pens-new` itself, established where the log is extended)
+        hints={"component.drawPoints(pen)": ["all(glyph.log_pens[k] == pen for k in range(len(P0), len(glyph.log_pens)))"]},
         ensures={
             # every pen that drew into the glyph during the call carries exactly the options passed in
             "pen-options": S(f"all(glyph.log_pens[k].reverseFlipped == $reverseFlipped and glyph.log_pens[k].include == $include"
